@@ -54,23 +54,36 @@ n_iter=s.count("\tr := uintptr(rand())\n")
 n_h0=s.count("h.hash0 = uint32(rand())")
 if n_iter!=1 or n_h0<3:
     sys.exit(1)
-s=s.replace("\tr := uintptr(rand())\n","\tr := uintptr(simMapRand())\n")
-s=s.replace("h.hash0 = uint32(rand())","h.hash0 = uint32(simMapRand())")
+s=s.replace("\tr := uintptr(rand())\n","\tr := uintptr(simMapIterRand(h))\n")
+s=s.replace("h.hash0 = uint32(rand())","h.hash0 = uint32(simMapHashRand())")
 s+='''
 // ---- /verif simulator seam: seedable map iteration order and hash seed.
 var simMapSeedOn uint32
 var simMapSeed uint64
 var simMapCtr uint64
 
-func simMapRand() uint64 {
-	if atomic.Load(&simMapSeedOn) == 0 {
-		return rand()
-	}
-	c := atomic.Xadd64(&simMapCtr, 1)
-	z := simMapSeed + c*0x9E3779B97F4A7C15
+func simMapMix(z uint64) uint64 {
 	z = (z ^ (z >> 30)) * 0xBF58476D1CE4E5B9
 	z = (z ^ (z >> 27)) * 0x94D049BB133111EB
 	return z ^ (z >> 31)
+}
+
+// simMapIterRand: where an iteration starts is a function of the seed in force and of the map's size only - NOT of a
+// running counter: how many maps a call creates or walks before it reaches a given loop depends on pools the garbage
+// collector empties at its own times (encoding/json's encodeState, fmt), which made orders drift between executions.
+func simMapIterRand(h *hmap) uint64 {
+	if atomic.Load(&simMapSeedOn) == 0 {
+		return rand()
+	}
+	return simMapMix(simMapSeed + (uint64(h.count)+1)*0x9E3779B97F4A7C15 + uint64(h.B)*0xD1B54A32D192ED03)
+}
+
+// simMapHashRand: one hash seed per simulator seed (bucket placement of maps with more than eight entries).
+func simMapHashRand() uint64 {
+	if atomic.Load(&simMapSeedOn) == 0 {
+		return rand()
+	}
+	return simMapMix(simMapSeed ^ 0xA24BAED4963EE407)
 }
 
 // simSetMapSeed is reached from the simulator through go:linkname.
